@@ -434,13 +434,28 @@ Proof.
 Qed.
 
 (* the emitted node is exactly the literal of the value ... *)
-Theorem as_ast_exact v : finite v = true -> as_ast v = Some (lit_expr v).
-Proof. intros Hf. unfold as_ast. rewrite finite_ints_ok by assumption. apply parse_text_repr; assumption. Qed.
+Theorem as_ast_exact v : embeddable v = true -> as_ast v = Some (lit_expr v).
+Proof.
+  unfold embeddable. intros H. apply andb_true_iff in H as [Hf Hd].
+  unfold as_ast. rewrite finite_ints_ok by assumption. rewrite Hd. apply parse_text_repr; assumption.
+Qed.
+
+Lemma embeddable_finite v : embeddable v = true -> finite v = true.
+Proof. unfold embeddable. intros H. apply andb_true_iff in H as [Hf _]. exact Hf. Qed.
 
 (* ... which evaluates back to the value, type-exactly *)
 Theorem as_ast_roundtrip v :
-  finite v = true -> exists e, as_ast v = Some e /\ literal_eval e = Some v.
-Proof. intros Hf. exists (lit_expr v). split; [apply as_ast_exact | apply eval_lit]; assumption. Qed.
+  embeddable v = true -> exists e, as_ast v = Some e /\ literal_eval e = Some v.
+Proof.
+  intros Hf. exists (lit_expr v). split; [apply as_ast_exact; assumption | apply eval_lit, embeddable_finite; assumption].
+Qed.
+
+(* beyond CPython's limits the value is refused, never altered *)
+Theorem as_ast_some v e : as_ast v = Some e -> finite v = true -> e = lit_expr v.
+Proof.
+  unfold as_ast. destruct (ints_ok v && Nat.leb (depth v) max_nesting); [| discriminate].
+  intros H Hf. rewrite parse_text_repr in H by assumption. inversion H; reflexivity.
+Qed.
 
 (* a str - any bytes: quotes, backslashes, newlines, code-like text - becomes one string constant *)
 Theorem as_ast_no_code s : as_ast (PStr s) = Some (Const (CStr s)).
@@ -481,7 +496,7 @@ Proof. split; [reflexivity |]. apply const_legal_spec. Qed.
 (* ------------------------------------------------------------------ entry points *)
 
 Theorem metadata_embed q md :
-  finite md = true -> metadata_call q md = Some (Call (Name "MetaData") [q; lit_expr md] [] []).
+  embeddable md = true -> metadata_call q md = Some (Call (Name "MetaData") [q; lit_expr md] [] []).
 Proof. intros Hf. unfold metadata_call. rewrite as_ast_exact by assumption. reflexivity. Qed.
 
 (* every As* terminal: the node named by the wire format, the source query first, then each Python
@@ -489,7 +504,7 @@ Proof. intros Hf. unfold metadata_call. rewrite as_ast_exact by assumption. refl
 Theorem terminals_embed meth node lits :
   In (meth, node, lits) wire_format ->
   forall q env vs,
-    map (fun nm => lookup nm env) lits = map Some vs -> forallb finite vs = true ->
+    map (fun nm => lookup nm env) lits = map Some vs -> forallb embeddable vs = true ->
     as_terminal meth q env = Some (Call (Name node) (q :: map lit_expr vs) [] []).
 Proof.
   intros Hin q env vs Hl Hf. unfold wire_format in Hin. cbn [In] in Hin.
